@@ -18,6 +18,7 @@ from urwid.event_loop.abstract_loop import ExitMainLoop
 from urwid.event_loop.main_loop import CantUseExternalLoop
 from urwid import signals as _signals_mod
 from urwid.util import StoppingContext
+from urwid.display.common import INPUT_DESCRIPTORS_CHANGED as _common_INPUT_DESCRIPTORS_CHANGED
 
 ML = "urwid/event_loop/main_loop.py:"
 
@@ -61,6 +62,9 @@ class EventLoopProtocol(Protocol):
         "enter_idle": PMethod(Int, params=["callback"]),
         "remove_enter_idle": PMethod(Bool, params=["handle"]),
         "alarm": PMethod(Opaque("AlarmHandle"), params=["seconds", "callback"]),
+        "remove_alarm": PMethod(Bool, params=["handle"]),
+        "watch_file": PMethod(Int, params=["fd", "callback"]),
+        "remove_watch_file": PMethod(Bool, params=["handle"]),
         # user callbacks run in here: it may raise anything (ExitMainLoop or any other exception)
         "run": PMethod(None, params=[], raises_any=(ExitMainLoop, BaseException)),
     }
@@ -82,7 +86,11 @@ def _real(ip, st, f, args, kwargs):
     name = getattr(f, "__name__", "")
     owner = getattr(f, "__self__", None)
     if owner is _signals_mod._signals and name in ("connect", "disconnect"):
-        st.event("signal", name)  # signal wiring of the screen: verified under C14; no effect on this property
+        # signal wiring of the screen (delivery itself: verified under C14): which signal of which object goes to which
+        # method of the loop
+        h = args[2] if len(args) > 2 else None
+        st.event("signal", name, args[0] if args else None, args[1] if len(args) > 1 else None,
+                 (getattr(getattr(h, "ref", None), "qualname", None), getattr(h, "bound", None)))
         return None
     return NotImplemented
 
@@ -103,6 +111,8 @@ class ml_start:
     raises = (CantUseExternalLoop,)
     call_real = staticmethod(_real)
     modifies = ("idle_handle",)
+    # (_reset_input_descriptors has a contract of its own below; here its body is executed: `inline=`)
+    contract_overrides = {ML + "MainLoop._reset_input_descriptors": None}
 
     def ensures(old, s, a, result):
         st = cur()
@@ -110,6 +120,12 @@ class ml_start:
         yield "screen-started-first", bool(names) and names[0] == "start"
         yield "input-hooked-and-idle-redraw-registered", "hook_event_loop" in names and "enter_idle" in names and "alarm" in names
         yield "mouse-tracking-only-if-asked", eq("set_mouse_tracking" in names, old.handle_mouse)
+        # the display may be stopped and started again while the loop runs (shelling out, suspend / resume): the
+        # screen announces that with INPUT_DESCRIPTORS_CHANGED, which must reach the re-hook
+        sig = [e[1:] for e in st.trace if e[0] == "signal"]
+        yield "descriptor-changes-of-the-screen-lead-to-a-re-hook", len(sig) == 1 and sig[0][0] == "connect" and sig[0][1] is old.screen and sig[0][2] == _common_INPUT_DESCRIPTORS_CHANGED and sig[0][3] == ("MainLoop._reset_input_descriptors", s)
+        hooks = [ev for ev in st.trace if ev[0] == "call" and ev[2] in ("hook_event_loop", "unhook_event_loop")]
+        yield "input-goes-to-MainLoop._update", len(hooks) == 2 and hooks[1][2] == "hook_event_loop" and hooks[1][3]["event_loop"] is old.event_loop and getattr(getattr(hooks[1][3]["callback"], "ref", None), "qualname", "") == "MainLoop._update"
 
     def on_raise(old, s, a, exc):
         st = cur()
@@ -139,6 +155,8 @@ class ml_stop:
         st = cur()
         names = [ev[2] for ev in st.trace if ev[0] == "call"]
         yield "hooks-removed-then-screen-stopped", names == ["remove_enter_idle", "unhook_event_loop", "stop"]
+        sig = [e[1:] for e in st.trace if e[0] == "signal"]
+        yield "re-hook-disconnected-before-the-screen-stops", len(sig) == 1 and sig[0][0] == "disconnect" and sig[0][1] is old.screen and sig[0][2] == _common_INPUT_DESCRIPTORS_CHANGED and sig[0][3] == ("MainLoop._reset_input_descriptors", s) and st.trace.index(("signal", *sig[0])) < [i for i, ev in enumerate(st.trace) if ev[0] == "call" and ev[2] == "stop"][0]
 
     log_event = "stop"
 
@@ -518,6 +536,12 @@ class bs__start:
     self_shape = BASESCREEN
     log_event = "_start"
 
+    def requires(s, a):
+        # started-before-the-start-hook-runs: the hook announces the screen's input descriptors
+        # (INPUT_DESCRIPTORS_CHANGED -> MainLoop._reset_input_descriptors -> Screen.get_input_descriptors, which
+        # reports the tty and the resize pipe exactly when the screen counts as started): owed by BaseScreen.start
+        return s._started == True  # noqa: E712
+
 
 @contract(DCM + "BaseScreen._stop", property=(), assumed=True, notes="subclass hook (terminal mode restoration): logged")
 class bs__stop:
@@ -576,7 +600,7 @@ RAWSCREEN = Obj(_prd.Screen, dict(
     bracketed_paste_mode=Bool, focus_reporting=Bool, _alternate_buffer=Bool, _mouse_tracking_enabled=Bool,
     _rows_used=Opt(Int), maxrow=Opt(Int), _next_timeout=Opt(Int), max_wait=Opt(Int), _signal_keys_set=Bool,
     _old_signal_keys=Opt(Tup(Int, Int, Int, Int, Int)), _old_termios_settings=Opt(Opaque("Termios")), input_fd=Opt(Int),
-    _term_output_file=Opaque("OutStream"), screen_buf=Opt(Opaque("ScreenBuf")), out_unbuffered=Bool,
+    _term_output_file=Opaque("OutStream"), screen_buf=Opt(Opaque("ScreenBuf")), out_unbuffered=Bool, _started=Bool,
     **{m: Bool for m in MODES}, **{p: Bool for p in PENDING}))
 
 # effect table of the escape constants on the ghost mode set (what a VT100/xterm does with them)
@@ -699,6 +723,9 @@ def _tty_real(ip, st, f, args, kwargs):
         return "<default attrspec>"
     owner = getattr(f, "__self__", None)
     if owner is _signals_mod._signals and getattr(f, "__name__", "") == "emit":
+        # (delivery: C14.)  Logged with what a handler asking the screen for its descriptors would see at this moment
+        # (MainLoop._reset_input_descriptors -> hook_event_loop -> get_input_descriptors: `_started` decides)
+        st.event("emit", args[0] if args else None, args[1] if len(args) > 1 else None, o.fields["_started"])
         return False
     return NotImplemented
 
@@ -726,8 +753,9 @@ class scr__start:
     call_real = staticmethod(_tty_real)
 
     def requires(s, a):
-        # a terminal in its initial modes, nothing on its way to it
-        return both(*[neg(s.fields[m]) for m in MODES], nothing_pending(s))
+        # a terminal in its initial modes, nothing on its way to it; the screen already counts as started
+        # (BaseScreen.start owes that to its hook: contract of BaseScreen._start above)
+        return both(*[neg(s.fields[m]) for m in MODES], nothing_pending(s), s._started == True)  # noqa: E712
 
     def ensures(old, s, a, result):
         # (_start need not flush: the modes are those the terminal has once the bytes written have arrived)
@@ -739,6 +767,14 @@ class scr__start:
         yield "signal-handlers-installed", s.m_signals == True  # noqa: E712
         if tty:
             yield "old-tty-settings-saved", neg(is_none(s._old_termios_settings))
+        # a (re)start inside a running loop - after shelling out, on SIGCONT - must get the terminal input and the
+        # resize pipe watched again: the loop is told that the descriptors changed, at a moment when the screen
+        # reports them (get_input_descriptors: nothing while `_started` is False)
+        emits = [e for e in cur().trace if e[0] == "emit"]
+        yield "input-descriptors-announced-once", len(emits) == 1 and emits[0][1] is s and emits[0][2] == _common_INPUT_DESCRIPTORS_CHANGED
+        if emits:
+            yield "announced-while-the-screen-reports-its-descriptors", emits[-1][3] == True  # noqa: E712
+        yield "still-started", s._started == True  # noqa: E712
 
 
 @contract(PRD + "Screen._stop", property="C12", replayable=False,
@@ -773,3 +809,151 @@ class scr__stop:
 class esc_scp:
     params = dict(x=Int, y=Int)
     pure_spec = staticmethod(lambda a: "\x1b[<row>;<col>H")
+
+
+# ---- input descriptors: what the event loop watches follows the screen's start / stop ("each input event is passed
+# ..." also after the display was stopped and started again inside run(): shelling out, job-control suspend / resume)
+
+@contract(ML + "MainLoop._reset_input_descriptors", property="C12", replayable=False)
+class ml_reset_input_descriptors:
+    """The handler of the screen's INPUT_DESCRIPTORS_CHANGED signal (connected by MainLoop.start)."""
+    self_shape = MAINLOOP
+
+    def requires(s, a):
+        # MainLoop.start connects it only for a screen with event-loop support (it raises CantUseExternalLoop before)
+        return PROTOCOLS["Screen"].hasattr(None, cur(), s.screen, "hook_event_loop")
+
+    def ensures(old, s, a, result):
+        st = cur()
+        calls = [e for e in st.trace if e[0] == "call"]
+        yield "old-watches-removed-then-the-screen-hooked-again", [e[2] for e in calls] == ["unhook_event_loop", "hook_event_loop"] and all(e[1] is old.screen for e in calls)
+        if len(calls) == 2:
+            yield "on-the-loops-own-event-loop", calls[0][3]["event_loop"] is old.event_loop and calls[1][3]["event_loop"] is old.event_loop
+            cb = calls[1][3]["callback"]
+            yield "input-goes-to-MainLoop._update", getattr(getattr(cb, "ref", None), "qualname", "") == "MainLoop._update" and getattr(cb, "bound", None) is s
+
+    def ensures_callee(old, s, a, result):
+        return ()
+
+
+# ---- the descriptors the screen asks the event loop to watch
+
+# the resize socket / the terminal input stream / the gpm helper's output: objects with a fileno(), not ints
+PROTOCOLS["Sock"] = type("SockP", (Protocol,), {"kind": "Sock", "methods": {"fileno": PMethod(Int, params=[])}})()
+PROTOCOLS["InStream"] = type("InP", (Protocol,), {"kind": "InStream", "methods": {"fileno": PMethod(Int, params=[])}})()
+PROTOCOLS["Sock"].isinstance = PROTOCOLS["InStream"].isinstance = lambda ip, st, obj, cls: False
+DESCR_FIELDS = dict(_started=Bool, _resize_pipe_rd=Opaque("Sock"), input_io=Opt(Opaque("InStream")))
+DSCREEN_BASE = Obj(_rdb.Screen, DESCR_FIELDS)
+
+
+@contract(RDB + "Screen._term_input_io", property=(), assumed=True, notes="the input stream if it has a fileno(), else None (a property over hasattr): ghost field input_io")
+class scr_input_io:
+    self_shape = DSCREEN_BASE
+    result = Opt(Opaque("InStream"))
+    pure_spec = staticmethod(lambda old, a: old.input_io)
+
+
+def _descriptor_claims(old, result, extra=()):
+    """`result` = what the screen wants watched: nothing while it is stopped; the resize pipe (through which SIGWINCH
+    reaches the loop) and the terminal input whenever it counts as started."""
+    n = Q.seq_len(result)
+    want = [old._resize_pipe_rd] + ([val(old.input_io)] if not is_none(old.input_io) else []) + list(extra)
+    if not bool(old._started):
+        yield "nothing-to-watch-while-stopped", n == 0
+    else:
+        # (the list is built element by element: its length is concrete on every path)
+        same = isinstance(n, int) and n == len(want)
+        yield "resize-pipe-and-terminal-input-while-started", both(same, *[eq(Q.seq_get(result, i), w) for i, w in enumerate(want) if same])
+
+
+import subprocess as _subprocess  # noqa: E402
+
+GPM = Obj(_subprocess.Popen, dict(stdout=Opt(Opaque("InStream"))))
+DSCREEN = Obj(_prd.Screen, dict(gpm_mev=Opt(GPM), **DESCR_FIELDS))
+
+
+@contract(PRD + "Screen.get_input_descriptors", property="C12", replayable=False, inline=(RDB + "Screen.get_input_descriptors",))
+class scr_get_input_descriptors:
+    """Both bodies (the POSIX screen's and, through super(), the one of _raw_display_base.Screen, executed in line):
+    the resize pipe and the terminal input, plus the output of the gpm mouse helper (Linux console) when one runs."""
+    self_shape = DSCREEN
+    result = ListOf(Opaque("InStream"))
+
+    def ensures(old, s, a, result):
+        extra = []
+        if not is_none(old.gpm_mev) and not is_none(val(old.gpm_mev).stdout):
+            extra = [val(val(old.gpm_mev).stdout)]
+        yield from _descriptor_claims(old, result, extra)
+
+    def ensures_callee(old, s, a, result):
+        return ()
+
+
+def _descriptors_now(old, a):
+    """What get_input_descriptors answers in the state `old` (its postcondition above, as a value)."""
+    if not bool(old._started):
+        return Q.LRef(())
+    out = [old._resize_pipe_rd]
+    if not is_none(old.input_io):
+        out.append(val(old.input_io))
+    if not is_none(old.gpm_mev) and not is_none(val(old.gpm_mev).stdout):
+        out.append(val(val(old.gpm_mev).stdout))
+    return Q.LRef(tuple(out))
+
+
+scr_get_input_descriptors.pure_spec = staticmethod(_descriptors_now)
+
+HSCREEN = Obj(_prd.Screen, dict(gpm_mev=Opt(GPM), _current_event_loop_handles=ListOf(Int), **DESCR_FIELDS))
+
+
+@contract(PRD + "Screen.hook_event_loop", property="C12", replayable=False)
+class scr_hook_event_loop:
+    self_shape = HSCREEN
+    params = dict(event_loop=Opaque("EventLoop"), callback=Opaque("UserFn"))
+
+    def ensures(old, s, a, result):
+        st = cur()
+        want = list(_descriptors_now(old, a).seq)
+        watches = [e for e in st.trace if e[0] == "call" and e[2] == "watch_file"]
+        filenos = [e for e in st.trace if e[0] == "call" and e[2] == "fileno"]
+        n = len(want)
+        # "each input event is passed ...": it can only be passed on if the loop watches where it arrives
+        yield "one-watch-per-descriptor-the-screen-reports-now", len(watches) == n and len(filenos) == n
+        if len(watches) == n and len(filenos) == n:
+            yield "on-the-given-event-loop-in-order", both(*[both(w[1] is a.event_loop, eq(f[1], d), eq(w[3]["fd"], f[4])) for w, f, d in zip(watches, filenos, want)])
+            cbs = [w[3]["callback"] for w in watches]
+            yield "input-goes-through-the-screens-parser-to-the-callback", all(getattr(getattr(cb, "ref", None), "qualname", "").endswith("hook_event_loop.<wrapper>") for cb in cbs)
+            hs = s._current_event_loop_handles
+            same = Q.seq_len(hs) == n if isinstance(Q.seq_len(hs), int) else False
+            yield "handles-kept-for-unhook", both(same, *[eq(Q.seq_get(hs, i), w[4]) for i, w in enumerate(watches) if same])
+
+
+USCREEN = Obj(_prd.Screen, dict(_current_event_loop_handles=ListOf(Int), _input_timeout=Opt(Opaque("AlarmHandle"))))
+
+
+def _unhook_inv(v):
+    st = cur()
+    hs = v.self._current_event_loop_handles
+    # the loop runs over ALL the handles hook_event_loop kept (same length, and - at the arbitrary index - same element)
+    yield "over-all-the-remembered-handles", both(Q.seq_len(v.iter_) == Q.seq_len(hs), implies(both(0 <= v.i_, v.i_ < Q.seq_len(hs)), eq(Q.seq_get(v.iter_, v.i_), Q.seq_get(hs, v.i_))))
+    if v.trace_mark_ is None:
+        return
+    # one arbitrary iteration: exactly the watch whose handle it is is taken from the given loop
+    calls = [e for e in st.trace[v.trace_mark_:] if e[0] == "call"]
+    yield "each-remembered-watch-is-removed", len(calls) == 1 and calls[0][2] == "remove_watch_file" and calls[0][1] is v.event_loop and bool(eq(calls[0][3]["handle"], st.ghost["loop_elem"]))
+
+
+@contract(PRD + "Screen.unhook_event_loop", property="C12", replayable=False)
+class scr_unhook_event_loop:
+    self_shape = USCREEN
+    params = dict(event_loop=Opaque("EventLoop"))
+    loops = {0: Loop(invariant=_unhook_inv)}
+
+    def ensures(old, s, a, result):
+        st = cur()
+        rm = [e for e in st.trace if e[0] == "call" and e[2] == "remove_alarm"]
+        # the alarm that waits for the rest of an incomplete escape sequence goes too (exactly when one is pending)
+        if is_none(old._input_timeout):
+            yield "no-alarm-to-remove", len(rm) == 0
+        else:
+            yield "pending-input-timeout-removed", len(rm) == 1 and rm[0][1] is a.event_loop and bool(eq(rm[0][3]["handle"], val(old._input_timeout))) and is_none(s._input_timeout)
